@@ -157,6 +157,17 @@ def run(ctx):
             ctx.fail("plain-bitarray-over-read", f"{nb}-bit cell from a plain bitarray: load_uint({nb + over}) -> {r}",
                      {"plain_bits": nb, "over": over})
     ctx.extra["plain_bitarray_cases"] = npl
+
+    # generic oracles of harness/bs.py on the implementation: refused stores (capacity never exceeded; the operations of the
+    # heap model and the primitive writers leave no trace), over-reads through every consuming reader, views
+    for name, fn, cnt in (("refused-store", bs.refused_store_case, ctx.n(300, 3000)), ("over-read", bs.overread_case, ctx.n(150, 1500)),
+                          ("views", bs.views_case, ctx.n(20, 200))):
+        for i in range(cnt):
+            r = core.call_impl(lambda _: fn(i), None)
+            if r != "ok":
+                ctx.fail(name + ":" + r.split(":")[0].split(" (")[0][:60], r, {"generic": name, "seed": i})
+                break
+        ctx.extra["generic_" + name.replace("-", "_") + "_cases"] = cnt
     # depth limit through the builder
     r = core.call_impl(lambda _: deep_builder(), None, timeout_s=60)
     if r != "ok":
@@ -251,6 +262,10 @@ def deep_builder():
 
 def replay(ctx, obj):
     c = obj["case"]
+    if "generic" in c:
+        fn = {"refused-store": bs.refused_store_case, "over-read": bs.overread_case, "views": bs.views_case}[c["generic"]]
+        r = core.call_impl(lambda _: fn(c["seed"]), None)
+        return None if r == "ok" else r
     if "plain_bits" in c:
         r = core.call_impl(lambda _: plain_overread(c["plain_bits"], c["over"]), None)
         return None if r == "raised" else f"over-read on plain bitarray cell {r}"
